@@ -324,6 +324,45 @@ fn metadata(ctx: &mut Ctx) {
             Err(sig) => ctx.violation(sub, idx, &format!("C11:{}", sig), json!({"input": s})),
         }
     }
+    // amounts at every integer-width boundary x units: never a panic (also not inside a list
+    // load), and an accepted interval is the amount that was written, within 14 days
+    let amounts: [u128; 22] = [0, 1, 2, 13, 14, 15, 127, 128, 255, 256, 336, 337, 2730, 2731, 5461, 65535, 65536, 4294967295, 4294967296, 18446744073709551615, 18446744073709551616, 340282366920938463463374607431768211455];
+    let mut k = 0u64;
+    for a in amounts {
+        for unit in ["day", "days", "hour", "hours", "days (update frequency)", "Days", "weeks"] {
+            k += 1;
+            let idx = 20_000 + k;
+            if !ctx.begin_case(sub, idx) {
+                continue;
+            }
+            let s = format!("! Title: t\n! Expires: {} {}\n||ads.example^\n", a, unit);
+            let r = guarded(|| {
+                let m = read_list_metadata(&s);
+                let mut fs = FilterSet::new(true);
+                let m2 = fs.add_filter_list(&s, ParseOptions::default());
+                (format!("{:?}", m.expires), format!("{:?}", m2.expires))
+            });
+            match r {
+                Err(sig) => ctx.violation(sub, idx, &format!("C11:{}", sig), json!({"input": s})),
+                Ok((e1, e2)) => {
+                    ctx.eval();
+                    let digits: String = e1.chars().filter(|c| c.is_ascii_digit()).collect();
+                    let ok = if e1 == "None" {
+                        true
+                    } else {
+                        let n: u128 = digits.parse().unwrap_or(u128::MAX);
+                        n == a && ((e1.contains("Days") && (1..=14).contains(&n)) || (e1.contains("Hours") && (1..=336).contains(&n)))
+                    };
+                    if e1 != "None" {
+                        ctx.nontrivial(fnv(&s));
+                    }
+                    if !ok || e1 != e2 {
+                        ctx.violation(sub, idx, "C11:expires-interval-is-not-the-amount-written", json!({"input": s, "read_list_metadata": e1, "add_filter_list": e2}));
+                    }
+                }
+            }
+        }
+    }
 }
 
 const JUNK: &[&str] = &[
@@ -349,6 +388,9 @@ const JUNK: &[&str] = &[
     "/[/$script",
     "a.com#%#alert(1)",
     "a.com#$#body { }",
+    "example.com,\u{ad}##.junk-banner",
+    "a.com,sub.ads.net,\u{200d}##.junk2",
+    "~example.com,\u{ad}#@#.junk3",
     "[zoneid]=",
     "[ad-slot]",
     "[Adblock",
